@@ -60,6 +60,10 @@ EXCLUDE_FLAGS = [
     ('act_larger', 'known:larger-actual (whole array larger than the explicit-shape dummy)'),
     ('lb_inquiry', 'known:bounds-inquiry (LBOUND/UBOUND of an array dummy with lower bound /= 1)'),
     ('fn_in_while', 'known:function-in-while (function inlined out of a DO WHILE condition)'),
+    ('act_lower_zero', 'known:section-lower-zero (section actual with lower bound 0)'),
+    ('assumed_caller_lb', 'known:assumed-shape-caller-lb (assumed-shape dummy, caller array with lower bound /= 1)'),
+    ('act_muldiv', 'known:multiplicative-actual (product / quotient actual substituted next to * or /)'),
+    ('member_uses_param', 'known:constants-member-use (inlined PARAMETER still referenced by an internal procedure)'),
 ]
 
 
@@ -80,13 +84,20 @@ OUTSIDE_DOMAIN = [
 ]
 
 
-def variants_for(spec):
+def variants_for(spec, thorough=False):
+    """the (entry point, options) list applied to one program; thorough adds two more drawn InlineTransformation option sets"""
     o = spec.get('opts', {})
     tr = {k: bool(o.get(k)) for k in TRAFO_KEYS}
     out = [('internal', {}), ('marked', {'adjust_imports': bool(o.get('adjust_imports'))}), ('stmtfunc', {}), ('elemental', {}),
            ('functions', {}), ('constants', {'external_only': bool(o.get('external_only'))}), ('trafo', tr)]
     if tr != TRAFO_DEFAULT:
         out.append(('trafo', dict(TRAFO_DEFAULT)))
+    if thorough:
+        bits = GI._expand(spec.get('seed', 0), 'trafo-extra', 2 * len(TRAFO_KEYS), 2)
+        for j in range(2):
+            t2 = {k: bool(bits[j * len(TRAFO_KEYS) + i]) for i, k in enumerate(TRAFO_KEYS)}
+            if ('trafo', t2) not in out:
+                out.append(('trafo', t2))
     return out
 
 
@@ -278,6 +289,30 @@ def root_cause(text, ep, o):
                     ed, ea = extents(d.shape), extents(a.shape)
                     if ed and ea and ed != ea:
                         return 'larger-actual'
+    # 1b'. section actual with literal lower bound 0 / assumed-shape dummy with a caller array whose lower bound is not 1
+    for r, actuals, c in calls:
+        for a in actuals:
+            if isinstance(a, sym.Array) and any(isinstance(d, sym.RangeIndex) and d.lower is not None and intval(d.lower) == 0
+                                                for d in (a.dimensions or ())):
+                return 'section-lower-zero'
+    for r, actuals, c in calls:
+        if isinstance(c, ir.CallStatement):
+            for d, a in c.arg_map.items():
+                if isinstance(d, sym.Array) and isinstance(a, sym.Array) and a.shape and any(
+                        isinstance(x, sym.RangeIndex) and x.lower is None and x.upper is None for x in (d.shape or ())):
+                    if any(isinstance(x, sym.RangeIndex) and x.lower is not None and intval(x.lower) != 1 for x in a.shape):
+                        return 'assumed-shape-caller-lb'
+    # 1b''. product / quotient as actual argument (printed without parentheses next to * or /, cf. C06)
+    from pymbolic import primitives as pp
+    all_calls = list(calls)
+    if app['stmtfunc']:
+        sfnames = {str(sf_.variable).lower() for sf_ in FindNodes(ir.StatementFunction).visit(kernel.spec)}
+        for c in FindInlineCalls().visit(kernel.body):
+            if str(c.function).lower() in sfnames:
+                all_calls.append((None, list(c.parameters), c))
+    for r, actuals, c in all_calls:
+        if any(isinstance(a, (pp.Product, pp.Quotient)) for a in actuals):
+            return 'multiplicative-actual'
     # 1c. LBOUND / UBOUND of an array dummy with lower bound /= 1
     for r in inl_subs + inl_funs:
         shifted = {a.name.lower() for a in r.arguments if isinstance(a, sym.Array) and any(
@@ -316,6 +351,14 @@ def root_cause(text, ep, o):
             if any(str(c.name).lower() in subs for c in FindNodes(ir.CallStatement).visit(cond.body)) or \
                     any(str(c.function).lower() in funs for c in FindInlineCalls().visit(cond.body)):
                 return 'one-line-if'
+    # 5b. PARAMETER inlined (import / declaration removed) but still referenced by an internal procedure
+    if app['constants'] and members:
+        names = {str(s_).lower() for imp in FindNodes(ir.Import).visit(kernel.spec) for s_ in (imp.symbols or ())}
+        if not (o.get('external_only') if 'external_only' in o else True):
+            names |= {v.name.lower() for v in kernel.variables if getattr(v.type, 'parameter', False)}
+        for m in members:
+            if {v.name.lower() for v in FindVariables().visit(m.body)} & names:
+                return 'constants-member-use'
     # 6. dead-code removal of an ELSE IF with constant condition
     if dead:
         for h in hosts:
@@ -684,6 +727,8 @@ def report(ctx, spec, info, results, reduce=True):
                 ctx.exclude(why)
             continue
         ctx.case(case, nontrivial, classes)
+        if r.get('note'):
+            ctx.count('shared-executable-disagreement-not-confirmed')
         if st == 'ub':
             ctx.exclude('original-traps-at-runtime(UB)')
         elif st == 'undef':
@@ -695,7 +740,8 @@ def report(ctx, spec, info, results, reduce=True):
             sig = signature(info['text'], ep, o, r['klass'])
             small = vspec
             detail = r['detail']
-            if reduce and sig not in ctx.failures and sig not in ctx.known_sigs and not ctx.out_of_time():
+            if reduce and sig not in ctx.failures and sig not in ctx.known_sigs and not ctx.out_of_time() \
+                    and not os.environ.get('C28_NO_REDUCE'):
                 small, d2 = reduce_failure(vspec, sig)
                 detail = d2 or detail
             ctx.fail(sig, {'spec': small}, f'[{ep} {json.dumps(o, sort_keys=True)}] flags on: '
@@ -746,7 +792,7 @@ def check_program(seedspec, ctx):
     if ctx.out_of_time():
         return
     spec = apply_exclusions(seedspec, ctx)
-    info, results = evaluate_program(spec, variants_for(spec))
+    info, results = evaluate_program(spec, variants_for(spec, ctx.thorough))
     report(ctx, spec, info, results)
 
 
